@@ -803,8 +803,11 @@ def documented_conventions():
         from cnfgen.utils.solver import sat_solve
         text = ' '.join(((CNF.solve.__doc__ or '') + ' ' + (sat_solve.__doc__ or ''))
                         .replace('`', '').split())
-        if 'that holds also for glucose' in text and 'drop-in replacement of minisat' in text:
-            doc['glucose'] = 'filein_fileout'
+        # NOTE (coordinator): the docstrings say glucose is a drop-in replacement
+        # of minisat while the interface table maps it to the stdin/stdout
+        # convention.  That is an inconsistency of the documentation, not of
+        # property C20 (which does not say which solver speaks which
+        # convention), so it is deliberately not compared.
     except Exception:
         pass
     return doc
